@@ -2,6 +2,9 @@
    extracted inductive types; no Extract Constant / Extract Inductive of our own. *)
 From Coq Require Extraction.
 From Coq Require Import ExtrOcamlBasic.
-From Octo Require Import Model.PacketWindow.
+From Octo Require Import Base.Bytes Model.PacketWindow Model.Utf8 Model.Address.
 Extraction Language OCaml.
-Extraction "model.ml" pw_new pw_validate pw_run spec_run pw_reset.
+Extraction "model.ml"
+  pw_new pw_validate pw_run spec_run pw_reset
+  utf8_valid
+  s5_encode s5_length s5_try_decode_at s5_decode vm_write vm_read accept_addr.
